@@ -252,6 +252,68 @@ def make_resplit_assoc(d: Path, ins, asizes):
     return apaths
 
 
+class _AltExtras:
+    """HasFieldSets value for create_associated: other values for the second field set the base parts already hold."""
+
+    FIELD_SETS: list = []
+
+    def __init__(self, n, pid):
+        self.vx = np.arange(n, dtype=float) + 0.5 + pid
+        self.vm = 77
+
+
+def make_override_assoc(d: Path, paths, form):
+    """MergeGen.tla ovr: for every base input (still at its own path) an associated file that holds the field set
+    vf_extras AGAIN, with other values."""
+    TS, _, FieldSet, *_ = _aeic()
+    _AltExtras.FIELD_SETS = [FieldSet.from_registry('vf_extras')]
+    alts = []
+    for k, p in enumerate(paths, start=1):
+        ap = d / ('ov' + input_name(form, k)[2:])
+        ts = TS.open(base_file=p)
+        try:
+            ts.create_associated(ap, ['vf_extras'], lambda tr: _AltExtras(len(tr), ident(tr, False)['p']))
+        finally:
+            ts.close()
+        alts.append(ap)
+    return alts
+
+
+def check_override(out: Path, alt_out: Path, case):
+    """Open the merged base store with the merged overriding store, with and without override."""
+    TS = _aeic()[0]
+    devs = []
+    for override in (False, True):
+        try:
+            ts = TS.open(base_file=out, associated_files=[alt_out], override=override)
+        except Exception as e:
+            devs.append(('C09', 'override:open-raised', f'opening the merged store with a merged associated store holding the same field set (override={override}) raised {type(e).__name__}: {e}'))
+            continue
+        try:
+            for i, (k, j) in enumerate(case['expect']):
+                t = ts[i]
+                pid = payload_id(k, j)
+                it = ident(t, False)
+                if it['p'] != pid:
+                    devs.append(('C09', 'override:item', f'override={override}: merged[{i}] is {it}, should be item {j} of input {k}'))
+                    break
+                want_vm = 77 if override else 5
+                want_vx = np.arange(len(t), dtype=float) + ((0.5 + pid) if override else 0.0)
+                if int(t.vm) != want_vm or not np.array_equal(np.asarray(t.vx), want_vx):
+                    devs.append(('C09', f'override:{"ignored" if override else "applied-unasked"}', f'merged store opened with override={override}: item {i} shows vm = {int(t.vm)}, vx[0] = {float(t.vx[0])}; '
+                                 f'specification: the values of the {"associated" if override else "base"} parts (vm = {want_vm}, vx[0] = {float(want_vx[0])})'))
+                    break
+        except Exception as e:
+            devs.append(('C09', 'override:read-raised', f'override={override}: reading raised {type(e).__name__}: {e}'))
+        finally:
+            try:
+                ts.close()
+            except Exception:
+                pass
+            gc.collect()
+    return devs
+
+
 def readable_everywhere(out: Path, paths, ins):
     """NothingLost at data level: each input's trajectories can be read from
     its original path or from the merged directory."""
@@ -349,6 +411,7 @@ def run_case(case):
         paths, apaths = make_inputs(d, ins, case['assoc'], form=case['form'])
         out = d / 'merged.aeic-store'
         obs = FsObserver(out, paths)
+        ov_alts = make_override_assoc(d, paths, case['form']) if case.get('ovr') else []
         trace = [{'op': 'begin', 'ins': ins}]
         outcome, exc = run_merge_observed(out, paths, merge_kwargs(case['form'], paths, d), case['fault'], obs)
         if outcome == 'crashed':
@@ -370,6 +433,13 @@ def run_case(case):
                         devs += check_merged(out, case, assoc_out=aout)
                     except Exception as e:
                         devs.append(('C09', 'assoc-merge-raised', f'merging the associated stores raised {type(e).__name__}: {e}'))
+                if ov_alts and not devs:
+                    alt_out = d / 'merged_override.aeic-store'
+                    try:
+                        _aeic()[0].merge(output_store=alt_out, input_stores=list(ov_alts))
+                        devs += check_override(out, alt_out, case)
+                    except Exception as e:
+                        devs.append(('C09', 'override:merge-raised', f'merging the overriding associated stores raised {type(e).__name__}: {e}'))
                 if case.get('rebuild') and not devs:
                     # Merge.tla Rebuild: take the merged store apart, merge the same stores in reversed order into the
                     # same output path (same process), read again
